@@ -277,7 +277,7 @@ impl<'tcx> Cx<'tcx> {
         let _ = write!(
             out,
             "{{\"rec\":\"{}\",\"path\":{},\"kind\":{},\"file\":{},\"line\":{},\"x\":{},\"argc\":{}",
-            if promoted.is_some() { "promoted" } else { "body" },
+            if promoted.is_some() { "promoted" } else if matches!(kind, DefKind::Const { .. } | DefKind::AssocConst { .. }) { "constbody" } else { "body" },
             esc(&path),
             esc(&format!("{:?}", kind)),
             esc(&file),
@@ -285,7 +285,7 @@ impl<'tcx> Cx<'tcx> {
             body.span.from_expansion(),
             body.arg_count
         );
-        if promoted.is_some() {
+        if promoted.is_some() || matches!(kind, DefKind::Const { .. } | DefKind::AssocConst { .. }) {
         } else if matches!(kind, DefKind::Closure) {
             let parent = tcx.typeck_root_def_id(did);
             let _ = write!(out, ",\"root\":{}", esc(&self.path(parent)));
@@ -604,6 +604,16 @@ impl<'tcx> Cx<'tcx> {
         let tcx = self.tcx;
         let t = tcx.type_of(did).instantiate_identity().skip_norm_wip();
         if !(t.is_integral() || t.is_bool()) {
+            // aggregate-valued constant (e.g. `const ALL: Self = Self { a: true, .. }`): dump its initialiser's MIR so
+            // that rules can see through a use of the constant as they see through the literal
+            if matches!(t.kind(), ty::Adt(..) | ty::Tuple(..)) && !tcx.generics_of(did).requires_monomorphization(tcx) {
+                if let Some(ldid) = did.as_local() {
+                    let body: &Body<'tcx> = tcx.mir_for_ctfe(ldid);
+                    if body.basic_blocks.len() <= 8 {
+                        self.body_rec(did, body, None, out);
+                    }
+                }
+            }
             return;
         }
         if tcx.generics_of(did).requires_monomorphization(tcx) {
